@@ -22,7 +22,7 @@ import (
 // C04 — tamper evidence: altered vertices and transactions are never admitted.
 
 type c04Mut struct {
-	Orig  int    `json:"orig"`  // which original (0 spice, 1 contract, 2 countersigned contract, 3 spice+data)
+	Orig  int    `json:"orig"`  // which original (0 spice, 1 contract, 2 countersigned contract, 3 spice+data, 4 countersigned contract addressed to its own issuer)
 	Op    string `json:"op"`    // mutation operator
 	Field string `json:"field"` // field it applies to
 	A     int    `json:"a"`     // position / amount
@@ -67,14 +67,18 @@ func c04NewWorld(seed string, trust bool) (*c04World, error) {
 	// with the harness keys as signers): tamper evidence is a metamorphic statement - whatever the code signs, a changed
 	// copy must be refused - so the check does not depend on the harness agreeing with the code about the digest format.
 	var mkErr error
-	mk := func(amt spice.Melange, data int, counter bool) *accountant.Vertex {
-		tx, err := transaction.New("subject-of-contract", amt, sim.DataBytes(data, int64(data)+7), w.Wallets[2].Addr, w.Wallets[1])
+	mk := func(amt spice.Melange, data int, counter bool, self ...bool) *accountant.Vertex {
+		rcv := w.Wallets[2]
+		if len(self) > 0 && self[0] {
+			rcv = w.Wallets[1] // a contract a wallet addresses to itself: issuer and receiver are one key
+		}
+		tx, err := transaction.New("subject-of-contract", amt, sim.DataBytes(data, int64(data)+7), rcv.Addr, w.Wallets[1])
 		if err != nil {
 			mkErr = err
 			return &accountant.Vertex{}
 		}
 		if counter {
-			if _, err := tx.Sign(w.Wallets[2], wallet.NewVerifier()); err != nil {
+			if _, err := tx.Sign(rcv, wallet.NewVerifier()); err != nil {
 				mkErr = err
 			}
 		}
@@ -84,7 +88,7 @@ func c04NewWorld(seed string, trust bool) (*c04World, error) {
 		}
 		return &v
 	}
-	cw.origs = []*accountant.Vertex{mk(spice.New(1, 500), 0, false), mk(spice.Melange{}, 32, false), mk(spice.Melange{}, 300, true), mk(spice.New(2, 0), 1, false)}
+	cw.origs = []*accountant.Vertex{mk(spice.New(1, 500), 0, false), mk(spice.Melange{}, 32, false), mk(spice.Melange{}, 300, true), mk(spice.New(2, 0), 1, false), mk(spice.Melange{}, 40, true, true)}
 	cw.other = mk(spice.New(3, 7), 17, true)
 	if mkErr != nil {
 		return cw, fmt.Errorf("building originals: %w", mkErr)
@@ -398,7 +402,7 @@ func c04Judge(cw *c04World, m c04Mut) (sig, msg string, nontrivial, tainted bool
 }
 
 func describeOrig(i int) string {
-	return []string{"spice transfer", "contract (32B data)", "countersigned contract (300B data)", "spice+1B data"}[i%4]
+	return []string{"spice transfer", "contract (32B data)", "countersigned contract (300B data)", "spice+1B data", "countersigned contract addressed to its own issuer"}[i%5]
 }
 
 // c04AddressSelfCheck: a corrupted address is rejected or resolves to the same key, never to a different one.
@@ -526,9 +530,9 @@ func TestC04(t *testing.T) {
 				failed = true
 			}
 		}
-		norig := scale(2, 4)
+		norig := scale(3, 5)
 		for o := 0; o < norig; o++ {
-			oi := []int{2, 0, 1, 3}[o]
+			oi := []int{2, 4, 0, 1, 3}[o]
 			// all single-bit flips of every fixed-width field
 			for f, bits := range c04Fixed {
 				for b := 0; b < bits; b++ {
@@ -622,7 +626,7 @@ func TestC04(t *testing.T) {
 				return
 			}
 			m := c04Mut{
-				Orig:  rapid.IntRange(0, 3).Draw(rt, "orig"),
+				Orig:  rapid.IntRange(0, 4).Draw(rt, "orig"),
 				Op:    rapid.SampledFrom([]string{"flip", "flip", "flip", "pm1", "truncate", "extend", "empty", "shift", "swap", "resign", "strip", "addr", "alias"}).Draw(rt, "op"),
 				Field: rapid.SampledFrom(append(append([]string{}, c04Fields...), "subject>data", "data>subject", "data>issuer", "issuer>data", "issuer>receiver", "receiver>issuer", "tx")).Draw(rt, "field"),
 				A:     rapid.IntRange(0, 4000).Draw(rt, "a"),
